@@ -17,6 +17,6 @@ if os.path.exists(os.path.join(src, "NOTES.md")):
 files = subprocess.run(["git", "-C", wt, "diff", "--stat", "HEAD", "--", ".", ":!seed"], capture_output=True, text=True).stdout.strip().splitlines()
 meta = {"id": pid, "origin": "fresh sub-agent given only the property text and a scratch worktree", "base_commit": subprocess.run(["git", "-C", wt, "rev-parse", "HEAD"], capture_output=True, text=True).stdout.strip(),
         "files_changed": files, "caught_by": caught, "signatures": sigs, "note": note,
-        "apply": "git -C /repo apply /verif/seeded/%s/patch.diff ; ./check <ID> ; git -C /repo checkout -- ." % pid}
+        "apply": "git -C /repo apply /verif/seeded/%s/patch.diff ; ./check %s ; git -C /repo checkout -- ." % (pid + os.environ.get("SEED_SUFFIX", ""), pid)}
 json.dump(meta, open(os.path.join(dst, "meta.json"), "w"), indent=1)
 print("stored", dst, os.listdir(dst))
